@@ -6,6 +6,8 @@
 (* DISPATCH 704 c07_spec_rows *)
 (* DISPATCH 705 c07_model_asfound *)
 (* DISPATCH 706 c07_groups_hold *)
+(* DISPATCH 707 c07_cow_kind_holds *)
+(* DISPATCH 708 c07_groups_prefixed_hold *)
 From Coq Require Import List ZArith NArith Bool.
 From MV Require Import Common.Sx C07.Inflector C07.Model C07.Spec.
 Import ListNotations.
@@ -172,14 +174,27 @@ Definition c07_spec_holds (x : sx) : sx :=
   let sp := spec_of d in
   if list_eqb sitem_eqb items (fst sp) then A 1%Z
   else L (map enc_sitem (fst sp)).
-(* 706: sample-group pairs *)
-Definition c07_groups_hold (x : sx) : sx :=
+(* 706 / 708: sample-group pairs, split by tree class so that the known finding (trees in which a flatten prefix
+   sits above a sample-group declaration, [sg_safe d = false]) cannot crowd out a failure on the other trees *)
+Definition groups_check (want_safe : bool) (x : sx) : sx :=
   let d := dec_case (sx_nth x 0) in
   let imp := sx_nth x 1 in
   let groups := map dec_group (sx_list (sx_nth imp 1)) in
   let sp := spec_of d in
-  if list_eqb group_eqb groups (snd sp) then A 1%Z
+  if negb (Bool.eqb (sg_safe d) want_safe) then A 1%Z
+  else if list_eqb group_eqb groups (snd sp) then A 1%Z
   else L (map enc_group (snd sp)).
+Definition c07_groups_hold (x : sx) : sx := groups_check true x.
+Definition c07_groups_prefixed_hold (x : sx) : sx := groups_check false x.
+(* 707: a written name is a borrowed constant exactly when it is at most 100 bytes long (c07_concat_borrowed) *)
+Definition c07_cow_kind_holds (x : sx) : sx :=
+  let imp := sx_nth x 1 in
+  let items := map dec_item (sx_list (sx_nth imp 0)) in
+  if forallb (fun it => match it with
+                        | ITimestamp _ => true
+                        | IValue n b _ => Bool.eqb b (N.leb (blen n) 100)
+                        end) items
+  then A 1%Z else A 0%Z.
 (* 704 (diagnostic): the specification's items and groups for a case *)
 Definition c07_spec_rows (x : sx) : sx :=
   let sp := spec_of (dec_case x) in L [L (map enc_sitem (fst sp)); L (map enc_group (snd sp))].
